@@ -7,7 +7,7 @@
           c06-duplicate-other       : the same outside that class (not a recorded finding)
           c06-offline-never-online  : the first notification sent for a (MAC, address) binding that was
                                       created by a frame says offline (not a recorded finding)
-   t6c <cfg> <t0> <ips> <op>...      : discipline without DHCP offers (R N / B N pairs, P, M, C, L); observation = (address/online)
+   t6c <cfg> <t0> <ips> <op>...      : the discipline (R N / B N pairs, P, M, U, O, C, L); observation = (address/online)
         pairs per unit; column 2 = expectation derived from the changes of the C04 reference model. *)
 From PV Require Import Base.Text Model.Tables Model.TablesShow Model.TablesKnown Spec.HostTracking Spec.HostTrackingNotif.
 Open Scope string_scope.
@@ -77,21 +77,35 @@ Fixpoint run6c (c : cfg) (dom : list ip) (s : state) (r : rstate) (ops : list po
   | POp (Rx f now) :: POp Notify :: rest =>
       let (s1, _) := step6 c s (POp (Rx f now)) in
       let (s2, em) := step6 c s1 (POp Notify) in
-      let (ex, r1) := expect c dom r (UFrame f now) in
+      let (ex, r1) := expect c r (UFrame f now) in
       match run6c c dom s2 r1 rest with
       | Some (x, y) => Some (show_pairs (map pair_of em) :: x, show_pairs ex :: y)
       | None => None
       end
   | PPurge now :: rest =>
       let (s1, em) := step6 c s (PPurge now) in
-      let (ex, r1) := expect c dom r (UPurge now) in
+      let (ex, r1) := expect c r (UPurge now) in
       match run6c c dom s1 r1 rest with
       | Some (x, y) => Some (show_pairs (map pair_of em) :: x, show_pairs ex :: y)
       | None => None
       end
   | POp (NameUpdate kd k nm) :: rest =>
       let (s1, em) := step6 c s (POp (NameUpdate kd k nm)) in
-      let (ex, r1) := expect c dom r (UName kd k nm) in
+      let (ex, r1) := expect c r (UName kd k nm) in
+      match run6c c dom s1 r1 rest with
+      | Some (x, y) => Some (show_pairs (map pair_of em) :: x, show_pairs ex :: y)
+      | None => None
+      end
+  | POp (DHCPv4Update m k nm now) :: rest =>
+      let (s1, em) := step6 c s (POp (DHCPv4Update m k nm now)) in
+      let (ex, r1) := expect c r (UUpdate m k nm now) in
+      match run6c c dom s1 r1 rest with
+      | Some (x, y) => Some (show_pairs (map pair_of em) :: x, show_pairs ex :: y)
+      | None => None
+      end
+  | POp (SetOffer m k nm) :: rest =>
+      let (s1, em) := step6 c s (POp (SetOffer m k nm)) in
+      let (ex, r1) := expect c r (UOffer m k) in
       match run6c c dom s1 r1 rest with
       | Some (x, y) => Some (show_pairs (map pair_of em) :: x, show_pairs ex :: y)
       | None => None
